@@ -45,7 +45,10 @@ THEOREMS = ["JanetModel.Props.C16." + t for t in (
     "connect_ends_exactly_at_first_nonquiet_event", "connect_unaffected_by_gc", "connect_completes_during_gc",
     "accept_delivers_every_connection_once", "accept_unaffected_by_gc", "accept_loop_conserves", "accept_loop_serves_every_connection",
     "accept_loop_edge_triggered_strands", "accept_waiting_has_edge", "accept_without_init_try_strands",
-    "sendto_one_datagram_per_call", "read_all_returns_everything_before_eof")]
+    "sendto_one_datagram_per_call", "read_all_returns_everything_before_eof",
+    # session 4: operations composed with the slot registry (one stream, many fibers), system-level liveness under fairness
+    "shared_stream_isolation", "shared_stream_invariant", "concurrent_writer_refused", "shared_stream_write_delivers_in_order",
+    "shared_stream_write_terminates_under_fairness")]
 NET_CURRENT = ["JanetModel.Stream.NetCurrent." + t for t in (
     "current_source_event_codes", "current_source_connect_quiet_on_gc", "current_source_connect_checks_on_readiness",
     "connect_unaffected_by_gc_current", "current_source_accept_groups", "current_source_accept_loop_level_triggered")]
